@@ -1,5 +1,7 @@
 package main
 
+import "strings"
+
 // C13: the tool is total. (i) the whole grammar text is symbolic; (ii) one or
 // two symbolic bytes replace the bytes at a position of a catalogue grammar.
 
@@ -21,6 +23,29 @@ func c13Flags() symFlags {
 	return symFlags{optGrammar: symBool("optGrammar"), leftRec: symBool("leftRec"), optParser: symBool("optParser")}
 }
 
+// c13Complete: every code-block method the emitted grammar literal refers to
+// ("run: (*parser).callonX") is defined in the emitted text.
+func c13Complete(out string) (string, bool) {
+	const ref = "(*parser).callon"
+	for i := 0; ; {
+		k := strings.Index(out[i:], ref)
+		if k < 0 {
+			break
+		}
+		i += k + len(ref)
+		j := i
+		for j < len(out) && (out[j] == '_' || out[j] >= '0' && out[j] <= '9' || out[j] >= 'a' && out[j] <= 'z' || out[j] >= 'A' && out[j] <= 'Z' || out[j] >= 0x80) {
+			j++
+		}
+		name := "callon" + out[i:j]
+		if !strings.Contains(out, "func (p *parser) "+name+"(") {
+			return name, false
+		}
+		i = j
+	}
+	return "", true
+}
+
 func c13Check(text []byte, f symFlags) {
 	res := symGenerate(text, f)
 	symNote(c13Outcome(res))
@@ -28,6 +53,11 @@ func c13Check(text []byte, f symFlags) {
 	if res.perr != nil {
 		// a rejected grammar never reaches the builder; the error carries a position or cause
 		symAssert(len(res.perr.Error()) > 0, "C13: empty diagnostic")
+	}
+	if !res.panicked && res.perr == nil && res.berr == nil {
+		missing, ok := c13Complete(res.out)
+		symDebug("missing", missing)
+		symAssert(ok, "C13: the tool reports success but the emitted parser refers to a code-block method it does not define (partial output)")
 	}
 	symReach("end")
 }
